@@ -541,7 +541,12 @@ class HistRun:
         if k == "post":
             c = self.pick_coll()
             ext = {"calendar": ".ics", "addressbook": ".vcf"}.get(c.kind, r.choice([".ics", ".vcf", ".txt"]))
-            body, ct = self.body_for("x" + ext)
+            uid = None
+            ics_names = [n for n in sorted(c.members) if n.endswith(".ics")]
+            if ext == ".ics" and ics_names and r.random() < 0.3:
+                # a UID that happens to equal the base name of another member
+                uid = r.choice(ics_names)[:-4]
+            body, ct = self.body_for("x" + ext, uid)
             return {"op": "post", "coll": c.path, "body": b2s(body), "ctype": ct}
         if k in ("delete", "delete_cond"):
             pm = self.pick_member()
@@ -571,6 +576,14 @@ class HistRun:
         if k in ("mkcol", "mkcalendar"):
             parents = [p for p in ("/user/calendars/", "/user/contacts/", "/user/") if p in m.colls]
             parent = r.choice(parents)
+            gone = [t for t in getattr(self, "deleted_colls", []) if t[0] not in m.colls and m.parent_of(t[0]) in m.colls]
+            if gone and r.random() < 0.5:
+                # re-create a deleted collection at the same path, preferably as another type
+                path, oldkind = r.choice(gone)
+                kind = r.choice([x for x in ("plain", "calendar", "addressbook") if x != oldkind])
+                if kind == "calendar" and r.random() < 0.5:
+                    return {"op": "mkcalendar", "path": path, "props": []}
+                return {"op": "mkcol", "path": path, "kind": kind, "props": []}
             for _ in range(10):
                 nm = r.choice(["c1", "c2", "work", "home", "sub"]) if self.names_mode == "simple" or r.random() < 0.7 else gen.member_base(r, self.names_mode)
                 if parent + nm + "/" not in m.colls:
@@ -956,6 +969,9 @@ class HistRun:
         if st in (200, 204):
             cpath = rel if rel.endswith("/") else rel + "/"
             if cpath in self.model.colls:
+                if not hasattr(self, "deleted_colls"):
+                    self.deleted_colls = []
+                self.deleted_colls.append((cpath, self.model.colls[cpath].kind))
                 self.model.drop_tree(cpath)
                 ctx["deleted_coll"] = cpath
             else:
